@@ -112,6 +112,7 @@ def run(R):
     R.rule("C04.count", "COUNT adds exactly 1 per admitted row with a non-NULL argument")
     R.rule("C04.percentile", "PERCENTILE picks rank floor(p * n) clamped to n - 1 with one and the same sample count n")
     _percentile_rank(R, "C04.percentile")
+    _text_keys(R, "C04.argkey")
     _rect(R, "C04.rect")
     _transform(R)
     # ---- order
@@ -188,8 +189,15 @@ def run(R):
     writer = None
     for ch in P.children.get(R.need_fn(ENGINE + "update_aggregates").key, []):
         for c in ch.calls:
-            if short(c.name) == ENGINE + "update_aggregate" and len(c.args) >= 6:
-                writer = (ch, c, norm(sum_leaves(ch, c.args[5])))
+            if short(c.name) == ENGINE + "update_aggregate":
+                # the aggregate index is the usize parameter of update_aggregate (wherever it sits in the signature)
+                callee = R.need_fn(ENGINE + "update_aggregate")
+                upos = [i_ for i_ in range(1, callee.arg_count + 1) if callee.local_ty(i_) == "usize"]
+                if upos and upos[0] - 1 < len(c.args):
+                    cand = (ch, c, norm(sum_leaves(ch, c.args[upos[0] - 1])))
+                    # of the two call sites (select list / HAVING) the HAVING one adds an offset
+                    if writer is None or any(x[0] == "len" for x in cand[2]):
+                        writer = cand
     acc = R.need_fn(AGG + "accept_group")
     reader = None
     for c in acc.calls:
@@ -628,3 +636,45 @@ def _distinct_store(R, rid):
             R.ok(rid, "update|%s" % vn, "`new` is reported only together with storing the value (%d store site(s))" % len(stores), f.loc(entry))
     if n == 0:
         R.note("%s: no collection-backed aggregator variant found" % rid)
+
+
+def _text_keys(R, rid):
+    """values computed for one expression must not be stored or looked up under the *text* of the expression (Display is not injective:
+    REAL literals print with two decimals), nor under the text of a value"""
+    P = R.prog
+    R.rule(rid, "no per-row / per-group cache is keyed by the rendered text of an expression or value (the rendering does not identify it: "
+                "two different expressions can share an entry)")
+    entry = R.need_fn(ENGINE + "execute_update")
+    reach = P.reachable([entry])
+    n = 0
+    for k in sorted(reach):
+        g = P.fns[k]
+        if g.derived or g.target != "lib" or not g.spath.startswith("sqlgrep::execution::"):
+            continue
+        for c in g.calls:
+            sn = short(c.name)
+            if not re.search(r"(hash::map::HashMap|btree::map::BTreeMap|hash::set::HashSet|btree::set::BTreeSet)::(get|get_mut|entry|insert|contains_key|contains|remove)$", sn):
+                continue
+            ts = c.func.get("res_targs") or c.targs
+            if not ts or ts[0] not in ("alloc::string::String", "&str", "str"):
+                continue
+            n += 1
+            lossy = None
+            for o in F.origins(g, c.args[1], depth=12):
+                if o.kind == "call" and re.search(r"ToString>::to_string$|^alloc::fmt::format$", short(o.call.name)):
+                    t0 = (o.call.func.get("res_targs") or o.call.targs or [""])[0]
+                    if "sqlgrep::model::" in t0 or short(o.call.name).endswith("alloc::fmt::format"):
+                        lossy = (o.call, t0)
+            owner = g
+            while owner.kind == "Closure" and owner.parent_key in P.fns:
+                owner = P.fns[owner.parent_key]
+            key = "%s|%s" % (owner.spath.split("::")[-1], sn.split("::")[-1])
+            if lossy:
+                R.violation(rid, key + "|text-key", "%s looks values up under the rendered text of %s: different expressions (e.g. `x * 0.001` and "
+                                                    "`x * 0.000001`, both printed `x * 0.00`) share one entry, so an aggregate is computed from "
+                                                    "another aggregate's argument" % (owner.path, lossy[1] or "a formatted value"),
+                            [c.loc(), lossy[0].loc()])
+            else:
+                R.ok(rid, key, "string key is not a rendering of an expression / value", c.loc(), nontrivial=False)
+    if n == 0:
+        R.ok(rid, "update-phase", "no string-keyed map in the update phase", entry.loc())
